@@ -590,6 +590,64 @@ def r6_16(ctx):
         ctx.bad("info-string-results", f.where(), "only %d Some((fence, language, config)) results found in extract_code_block_start (2 confirmed by reading)" % n)
 
 
+def r6_17(ctx):
+    """(a) F49: a code block of another language ends the paragraph that is collected as the pending title (title_paragraph is cleared in the
+    VerbatimCodeBlock arm) - the title is the *nearest* preceding paragraph; (b) F54: an inline configuration that is not enclosed in braces is not
+    dropped: the tokenizer stores it as it is (so that parsing it fails and names the line) - some stored config line is the info string's
+    configuration component without any strip"""
+    prog = ctx.prog
+    p = prog.impl_fn("MarkdownParser", "Parser", "parse")
+    op = Origins(p)
+    # the title accumulator: the Vec whose join is handed to set_testcase_title
+    acc = None
+    for bb, t in p.calls():
+        if (callee_name(t) or "").endswith("LineParser::set_testcase_title"):
+            for n in op.operand(t["args"][1]).walk():
+                if n.kind == "local":
+                    pass
+    from .c16 import mut_calls
+    accs = []
+    for l in range(len(p.locals)):
+        if p.lty(l).startswith("std::vec::Vec<") and "String" in p.lty(l) and not p.lty(l).startswith("&"):
+            ms = [mname(t) for _, t in mut_calls(p, l)]
+            if "Vec::push" in ms and "Vec::clear" in ms:
+                accs.append(l)
+    if len(accs) != 1:
+        raise AnchorError("MarkdownParser::parse: the pending title paragraph (a Vec<String> that is pushed and cleared) was not found (%s)" % accs)
+    acc = accs[0]
+    clears = [cb for cb, ct in mut_calls(p, acc) if mname(ct) == "Vec::clear"]
+    ok = False
+    for sb, st in switches(p):
+        ve, rv = variant_edges(p, sb)
+        if ve is None or "VerbatimCodeBlock" not in ve:
+            continue
+        back = p.back_edges()
+        reg = set(p.reachable(ve["VerbatimCodeBlock"], removed_edges=back))
+        for v_, tg_ in ve.items():
+            if v_ != "VerbatimCodeBlock":
+                reg -= set(p.reachable(tg_, removed_edges=back))
+        ok = ok or any(cb in reg for cb in clears)
+    ctx.check(ok, "verbatim-block-ends-title", p.where(), "the VerbatimCodeBlock arm clears the pending title paragraph",
+              "a code block of another language does not end the pending title paragraph: `Intro`, a ```sh block and `Real title` directly before a scrut block give "
+              "the test the title `Intro\\nReal title` instead of the nearest preceding paragraph")
+    it = prog.fn("<MarkdownIterator<'_> as Iterator>::next")
+    o = Origins(it)
+    raw = 0
+    for bi, blk in enumerate(it.blocks):
+        if blk["cleanup"]:
+            continue
+        for st in blk["stmts"]:
+            if st["k"] == "assign" and st["rv"]["k"] == "agg" and st["rv"]["agg"] == "tuple":
+                for op_ in st["rv"]["ops"]:
+                    tree = o.operand(op_)
+                    if any(n.kind == "call" and (n.a or "").endswith("extract_code_block_start") for n in tree.walk()) and \
+                            not any(method_name(c) in ("str::strip_prefix", "str::strip_suffix") for c in tree.call_names()):
+                        raw += 1
+    ctx.check(raw >= 1, "malformed-config-kept", it.where(), "a configuration that is not enclosed in braces is stored as it is (%d store(s)) and reported by the parser" % raw,
+              "only the brace-enclosed form of the inline configuration is stored: `{timeout: 3s` (unterminated) or `{timeout: 3s} x` is silently dropped and the test runs "
+              "without its configuration")
+
+
 def _non_identity(tree, is_read, is_local=lambda n: False):
     """calls that transform the text between a line read and the place where `tree` is used: walks down from the root, through
     value-preserving wrappers and containers, and stops at crate-local functions (their results are derived values, not the line)"""
@@ -732,6 +790,7 @@ def run(ctx):
     ctx.run_rule("R6.12", "fence info string: configuration = from the first `{` on, language = what precedes it; no other split [E-TABLE of accepted forms]", r6_12, floor=3)
     ctx.run_rule("R6.13", "parser state hygiene: every Ok path of LineParser::end_testcase flushes the state or resets the parsed exit code (shared with C07 R7.6) [E-PATH must-pass]", c07.parser_state_rules, floor=2)
     ctx.run_rule("R6.14", "title: every line appended to the pending title paragraph is committed (set_testcase_title(join)) before the next token is read [E-PATH must-pass]", r6_14, floor=3)
+    ctx.run_rule("R6.17", "the nearest preceding paragraph: a foreign code block ends the pending title (F49); a configuration not enclosed in braces is kept and reported, not dropped (F54) [E-PATH, E-FLOW]", r6_17, floor=2)
     ctx.run_rule("R6.16", "info string: blanks around it decide nothing - the language has lost leading and trailing blanks, the configuration its trailing ones (F28) [E-FLOW]", r6_16, floor=3)
     ctx.run_rule("R6.15", "lines verbatim: the line source returns the Lines::next item itself and every token field / pushed tuple holds the read line copied only (no trim / cut / case change) (shared with C10 R10.11) [E-FLOW]", r6_15, floor=5)
     ctx.run_rule("R6.9", "closing-fence predicate is a prefix test against the opener's fence (equality would reject longer closing fences) [E-TABLE of accepted forms]", r6_9, floor=3)
